@@ -282,7 +282,26 @@ func (c *simConn) QueryContext(ctx context.Context, query string, args []driver.
 		c.e.s.Probe("fault.at-rows")
 		return &failingRows{Rows: rows, err: c.faultErr(kind, party+"|rows")}, nil
 	}
+	if err == nil && cls == "select-sth" && party != "" {
+		// SQLite reads when the first row is fetched (sqlite3_step), not when the statement is prepared: that is
+		// the instant "the transaction read it". In the lockstep spec the driver can hold the caller in between.
+		return &notingRows{Rows: rows, first: func() { c.e.w.noteRead(party) }}, nil
+	}
 	return rows, err
+}
+
+// notingRows tells the world when the first row is fetched.
+type notingRows struct {
+	driver.Rows
+	first func()
+}
+
+func (r *notingRows) Next(dest []driver.Value) error {
+	if r.first != nil {
+		r.first()
+		r.first = nil
+	}
+	return r.Rows.Next(dest)
 }
 
 func (c *simConn) ExecContext(ctx context.Context, query string, args []driver.NamedValue) (driver.Result, error) {
